@@ -41,6 +41,67 @@ Proof.
     + auto 10.
 Qed.
 
+Definition J7P (s : st) : Prop :=
+  forall u q m, refs (T s u) > 0 -> q > 0 -> nth_error (msgs s) q = Some m -> unseen s u q -> refs (T s u) + 1 <= val m.
+(* clocks only grow and nobody stops borrowing: what was unseen afterwards was unseen before *)
+Lemma unseen_mono s s' u q :
+  msgs s' = msgs s -> cle (clk (T s u)) (clk (T s' u)) ->
+  (forall c, lend (T s c) = S u -> lend (T s' c) = S u /\ cle (clk (T s c)) (clk (T s' c))) ->
+  unseen s' u q -> unseen s u q.
+Proof.
+  intros Hm Hu Hb H m' Hin. rewrite <- Hm in Hin. destruct (H m' Hin) as (H1 & H2). split.
+  - intros Hhb. apply H1. eapply hb_mono; eauto.
+  - intros c Hc Hhb. destruct (Hb c Hc) as (Hl & Hcl). apply (H2 c Hl). eapply hb_mono; eauto.
+Qed.
+(* one thread's clock grows, messages and reference counts stay: the stale-read bound is kept *)
+Lemma J7_upd s t x' W R l :
+  Inv s -> t < length (ths s) -> lend x' = lend (T s t) -> cle (clk (T s t)) (clk x') -> refs x' = refs (T s t) ->
+  J7P {| msgs := msgs s; Wc := W; Rc := R; live := l; ths := upd (ths s) t x' |}.
+Proof.
+  intros I Ht Hl Hcc Hr u q m. cbn [msgs].
+  set (s' := {| msgs := msgs s; Wc := W; Rc := R; live := l; ths := upd (ths s) t x' |}).
+  assert (HT : forall v, T s' v = if Nat.eqb v t then x' else T s v) by (intros v; apply T_upd; exact Ht).
+  assert (Hclk : forall v, cle (clk (T s v)) (clk (T s' v))).
+  { intros v. rewrite HT. destruct (Nat.eqb_spec v t) as [->|]; [exact Hcc|apply cle_refl]. }
+  assert (Hlend : forall v, lend (T s' v) = lend (T s v)).
+  { intros v. rewrite HT. destruct (Nat.eqb_spec v t) as [->|]; [exact Hl|reflexivity]. }
+  assert (Hrefs : refs (T s' u) = refs (T s u)).
+  { rewrite HT. destruct (Nat.eqb_spec u t) as [->|]; [exact Hr|reflexivity]. }
+  rewrite Hrefs. intros Hru Hq Hn Hun. apply (J7 s I u q m Hru Hq Hn).
+  apply (unseen_mono s s' u q); [reflexivity|apply Hclk| |exact Hun].
+  intros c Hc. split; [rewrite Hlend; exact Hc|apply Hclk].
+Qed.
+
+(* thread t publishes a message m (an RMW on the count) *)
+Lemma unseen_cons s t x' m W R l u p :
+  t < length (ths s) -> lend x' = lend (T s t) -> cle (clk (T s t)) (clk x') -> u <> t ->
+  unseen {| msgs := m :: msgs s; Wc := W; Rc := R; live := l; ths := upd (ths s) t x' |} u (S p) -> unseen s u p.
+Proof.
+  intros Ht Hl Hcc Hut H m' Hin.
+  set (s' := {| msgs := m :: msgs s; Wc := W; Rc := R; live := l; ths := upd (ths s) t x' |}) in *.
+  assert (HT : forall v, T s' v = if Nat.eqb v t then x' else T s v) by (intros v; apply T_upd; exact Ht).
+  destruct (H m') as (H1 & H2); [cbn [s' msgs firstn]; right; exact Hin|]. split.
+  - rewrite HT in H1. destruct (Nat.eqb_spec u t); [contradiction|exact H1].
+  - intros c Hc Hhb. apply (H2 c).
+    + rewrite HT. destruct (Nat.eqb_spec c t) as [->|]; [rewrite Hl; exact Hc|exact Hc].
+    + rewrite HT. destruct (Nat.eqb_spec c t) as [->|]; [eapply hb_mono; [exact Hcc|exact Hhb]|exact Hhb].
+Qed.
+(* its own message is never unseen by the writer, nor by the thread whose handle the writer borrows *)
+Lemma unseen_own s t x' m W R l p :
+  t < length (ths s) -> hb m (clk x') ->
+  ~ unseen {| msgs := m :: msgs s; Wc := W; Rc := R; live := l; ths := upd (ths s) t x' |} t (S p).
+Proof.
+  intros Ht Hhb H. destruct (H m) as (H1 & _); [cbn [msgs firstn]; left; reflexivity|].
+  apply H1. rewrite T_upd by exact Ht. rewrite Nat.eqb_refl. exact Hhb.
+Qed.
+Lemma unseen_lender s t x' m W R l u p :
+  t < length (ths s) -> lend x' = S u -> hb m (clk x') ->
+  ~ unseen {| msgs := m :: msgs s; Wc := W; Rc := R; live := l; ths := upd (ths s) t x' |} u (S p).
+Proof.
+  intros Ht Hl Hhb H. destruct (H m) as (_ & H2); [cbn [msgs firstn]; left; reflexivity|].
+  apply (H2 t); rewrite T_upd by exact Ht; rewrite Nat.eqb_refl; [exact Hl|exact Hhb].
+Qed.
+
 Ltac pw_rw := repeat rewrite ?get_setc, ?get_tick, ?get_join, ?get_single, ?get_nil, ?Nat.eqb_refl.
 Ltac pw_case := repeat match goal with |- context[Nat.eqb ?a ?b] => destruct (Nat.eqb_spec a b); subst end.
 Ltac pw :=
@@ -95,10 +156,7 @@ Proof.
     + intros He. destruct (J5 s I u He) as (_ & H1 & Ht1 & _).
       pose proof (total_ge2 (ths s) u t Hne). unfold T, getth in *. lia.
   - discriminate.
-  - intros u p m. rewrite HT. destruct (Nat.eqb_spec u t) as [->|Hne]; cbn [refs clk x'].
-    + intros Hr' Hp Hn Hall. apply (J7 s I t p m Hr Hp Hn).
-      intros m' Hin Hhb. apply (Hall m' Hin). eapply hb_mono; [apply cle_tick | exact Hhb].
-    + apply (J7 s I u p m).
+  - apply J7_upd; auto.
   - intros u. rewrite HT. destruct (Nat.eqb_spec u t) as [->|Hne]; cbn [started refs mustfree excl x'].
     + discriminate.
     + apply (J8 s I u).
